@@ -40,7 +40,9 @@ def handle (op : String) (j : Json) : Except String Json := do
               | .error _ => "error"
               | .ok q => Json.bool (q.signals == m.signals && q.ports == m.ports &&
                   reprStr (q.instances.map fun i => (i.name, i.conns)) == reprStr (m.instances.map fun i => (i.name, i.conns)))
-            Json.mkObj [("ewf", EWF ctx h), ("export_equal", back), ("same_instance_count", ninst == m.instances.length),
+            -- every connection elaboration left is in the resolver's normal form (`resolve_nf`; `nfB_iff`): what re-elaboration leaves alone
+            let nf := h.instances.all fun i => i.conns.all fun pc => pc.2.nfB
+            Json.mkObj [("ewf", EWF ctx h), ("nf", nf), ("export_equal", back), ("same_instance_count", ninst == m.instances.length),
                         ("problems", toJson (moduleProblems p earlier m))]
         Json.mkObj [("module", m.name), ("result", r)] :: go (earlier ++ [m]) rest
     pure (Json.mkObj [("modules", Json.arr (go [] (p.modules.zip hs)).toArray)])
